@@ -4,7 +4,7 @@ set -u
 P=$1; D=$2; T=${3:-quick}; shift; shift; shift || true
 cd /repo || exit 2
 if [ -n "$(git status --porcelain)" ]; then echo "/repo is not clean"; exit 2; fi
-git apply "$D/patch.diff" || git apply -3 "$D/patch.diff" || { echo "patch does not apply"; git checkout -- .; exit 2; }
+git apply "$D/patch.diff" 2>/dev/null || git apply -3 "$D/patch.diff" 2>/dev/null || { echo "patch does not apply"; git reset -q --hard HEAD; exit 2; }
 git reset -q
 cd /verif
 for q in $P "$@"; do
